@@ -54,6 +54,8 @@ def run(pid, tier, seed, extra_model=None):
         scheds += directed.c03_family(tier) + directed.c01_family(tier)[::3]
     if pid == "C06":
         scheds += directed.c06_gas_overflow_family()
+    if pid in ("C01", "C05", "C08"):
+        scheds += directed.pool_expiry_family(tier)
     # the committed directed corpus rides along
     for path in sorted(glob.glob(os.path.join(common.ROOT, "corpus", "*.ndjson"))):
         for line in open(path):
